@@ -97,4 +97,3 @@ func (l ILin) String() string {
 	fmt.Fprintf(&sb, "%+d", l.C)
 	return sb.String()
 }
-
